@@ -134,6 +134,21 @@ Proof.
 Qed.
 Print Assumptions C14_uncommitted_inert_refuted.
 
+(* Same defect class, found by the thorough run: Phase1Commit followed by Commit (which runs phase 1
+   again).  When only newly added items are tracked the second phase 1 "succeeds" after its internal
+   refetch-and-merge has dropped them: every call, including Commit, reports success, yet the added
+   item is not stored and the recorded count says it is. *)
+Theorem C14_repeated_phase1_loses_adds_refuted : exists d0 cs,
+  disk_wf d0 /\
+  results (init ForWriting d0) cs = [ROk; ROk; ROk; ROk; ROk] /\
+  committed (state_after (init ForWriting d0) cs) = true /\
+  disk (state_after (init ForWriting d0) cs) = Some (2, [(1%N, 10%N)]).
+Proof.
+  exists (Some (1, [(1%N, 10%N)])), [CBegin; CNewBtree; CAdd 2 102 false; CP1 false; CCommit false false].
+  vm_compute. repeat split.
+Qed.
+Print Assumptions C14_repeated_phase1_loses_adds_refuted.
+
 (* ... whereas a transaction (any mode) over an existing store that never enters the commit
    protocol leaves the stored data exactly as it was, whatever else it does. *)
 Theorem C14_uncommitted_inert_partial : forall m d0 cs,
